@@ -1,7 +1,7 @@
 (* Extract.v — extraction of the executable models (ExtrOcamlBasic only; Z, N, positive and
    nat stay Coq's own inductive datatypes; no Extract Constant). *)
 From Coq Require Extraction ExtrOcamlBasic.
-From CgreenVerif Require Import Defs Runner Lemmas_Props Mocks CStr Lemmas_Constraints Printf.
+From CgreenVerif Require Import Defs Runner Lemmas_Props Mocks CStr Lemmas_Constraints Printf Vector.
 From CgreenVerif.Gen Require Import Facts.
 
 Extraction "../ocaml/model.ml"
@@ -22,5 +22,7 @@ Extraction "../ocaml/model.ml"
   Facts.fmt_constraint_as_string_format Facts.fmt_expected_value_string_format Facts.fmt_actual_value_string_format
   Facts.constraint_formats Facts.fmt_assert_equal_ Facts.fmt_assert_not_equal_ Facts.fmt_assert_string_equal_
   Facts.fmt_assert_string_not_equal_
+  Vector.vrun Vector.vempty Vector.srun Vector.sempty Vector.crun Vector.cempty Vector.lrun Vector.stack_run
+  Facts.vector_src Facts.suite_test_src Facts.suite_suite_src Facts.crumb_src
   Facts.verdict_suite Facts.verdict_single Facts.rk_text Facts.rk_cute Facts.rk_xml
   Facts.rk_libxml Facts.rk_cdash Facts.msg_codes.
